@@ -32,7 +32,7 @@ BOUNDED_STANDINS = {
             ("raw JSON framing (_JSONParser.raw_parse, _split_partial_document)", ["drivers/json_raw.py", "--max-len"], {"quick": "3", "thorough": "4"})],
     "C03": [("asyncio stream adapter read side end to end (receive_data / receive_data_into are under contract; get_buffer, eof_received, pause/resume of reading are not): delivered bytes == bytes written by the event loop for backlog / live splits and caller buffer sizes", ["drivers/asyncio_reader.py"], {"quick": "", "thorough": ""})],
     "C10": [("asyncio stream adapter read side end to end (receive_data / receive_data_into are under contract; get_buffer, eof_received, pause/resume of reading are not): delivered bytes == bytes written by the event loop for backlog / live splits and caller buffer sizes", ["drivers/asyncio_reader.py"], {"quick": "", "thorough": ""})],
-    "C05": [("asyncio datagram adapters (DatagramListenerProtocol, DatagramEndpoint / DatagramEndpointProtocol are not under contract): every datagram delivered exactly once, in order, across serve() sessions; errors cost one receive", ["drivers/asyncio_datagram.py"], {"quick": "", "thorough": ""}),
+    "C05": [("asyncio datagram adapters end to end (DatagramListenerProtocol serve / datagram_received / connection_lost, DatagramEndpoint.recvfrom and the DatagramEndpointProtocol callbacks are under contract; the asyncio queues and futures are models, this run exercises the real ones): every datagram delivered exactly once, in order, across serve() sessions; errors cost one receive", ["drivers/asyncio_datagram.py"], {"quick": "", "thorough": ""}),
             ("one-shot interface of the shipped serializers on the real code: deserialize(serialize(p)) == p through the serializer and DatagramProtocol; malformed / doubled / truncated datagrams", ["drivers/framings.py", "--oneshot"], {"quick": "", "thorough": ""})],
     "C07": [("shipped framings end to end on the real code: raw JSON, zlib / bz2 wrappers, length-prefixed file-based subclass, base64, line, struct - valid in-limit packets and one malformed frame under every chunking tried, both receive paths", ["drivers/framings.py", "--budget"], {"quick": "300000", "thorough": "3000000"})],
     "C12": [("concurrent senders on one TLS transport over a stallable in-memory transport (real ssl objects): packets arrive whole, once, per-sender order", ["drivers/tls_send.py"], {"quick": "", "thorough": ""}),
